@@ -329,27 +329,44 @@ pub enum IntSrc<'a> {
     State(InterruptibilityState<'a, 'a>),
 }
 
+thread_local! {
+    /// Selects the order (and repetition) of the `StreamOpts` setter calls; set from the case id
+    /// by `run_body`, so that a replayed case builds its options the same way.
+    static OPTS_VARIANT: std::cell::Cell<usize> = const { std::cell::Cell::new(0) };
+}
+
+/// The same options whatever the order of the builder calls: `rev()` any number of times is one
+/// `rev()`, the last `interrupted_next_item_include` wins, setting the state keeps the rest.
 fn make_opts<'a>(rev: bool, strat: Strat, incl: bool, rx: IntSrc<'a>) -> StreamOpts<'a, 'a> {
-    let mut o = StreamOpts::new();
-    if rev {
-        o = o.rev();
-    }
-    let rx = match rx {
-        IntSrc::State(state) => {
-            return o
-                .interruptibility_state(state)
-                .interrupted_next_item_include(incl);
-        }
-        IntSrc::Rx(rx) => rx,
+    let state: Option<InterruptibilityState<'a, 'a>> = match rx {
+        IntSrc::State(state) => Some(state),
+        IntSrc::Rx(rx) => strategy_of(strat).map(|strategy| {
+            let rx = rx.expect("harness: receiver is present whenever strat != non");
+            InterruptibilityState::new(Interruptibility::new(rx.into(), strategy))
+        }),
     };
-    if let Some(strategy) = strategy_of(strat) {
-        let rx = rx.expect("harness: receiver is present whenever strat != non");
-        o = o.interruptibility_state(InterruptibilityState::new(Interruptibility::new(
-            rx.into(),
-            strategy,
-        )));
+    let set_state = |o: StreamOpts<'a, 'a>, state: Option<InterruptibilityState<'a, 'a>>| match state {
+        Some(state) => o.interruptibility_state(state),
+        None => o,
+    };
+    let set_rev = |o: StreamOpts<'a, 'a>| if rev { o.rev() } else { o };
+    match OPTS_VARIANT.with(|v| v.get()) % 6 {
+        0 => set_state(set_rev(StreamOpts::new()), state).interrupted_next_item_include(incl),
+        1 => set_rev(set_state(StreamOpts::new().interrupted_next_item_include(incl), state)),
+        2 => set_rev(set_state(StreamOpts::default(), state)).interrupted_next_item_include(incl),
+        3 => set_state(set_rev(StreamOpts::new().interrupted_next_item_include(incl)), state),
+        4 => set_state(
+            set_rev(set_rev(StreamOpts::new()))
+                .interrupted_next_item_include(!incl)
+                .interrupted_next_item_include(incl),
+            state,
+        ),
+        _ => set_rev(set_rev(set_state(
+            StreamOpts::new().interrupted_next_item_include(incl),
+            state,
+        )))
+        .interrupted_next_item_include(incl),
     }
-    o.interrupted_next_item_include(incl)
 }
 
 /// Creates (does not poll) the future of the entry point selected by `cfg`.
@@ -1512,6 +1529,7 @@ fn sync_walk(g: &mut FnGraph<Fun>, sel: usize) {
 
 fn run_body(c: &RtCase, lines: &mut Vec<String>, flags: &mut RtFlags) {
     let id = c.id;
+    OPTS_VARIANT.with(|v| v.set(id as usize));
     let Some(mut g) = build_graph(&c.ops) else {
         flags.build_failed = true;
         lines.push(format!("OBS {id} B P"));
